@@ -105,13 +105,22 @@ def base_identity(rng, shape):
         out["eduPersonAffiliation"] = ["staff ", "staffX", "member"]
         out["givenName"] = [gen.value(rng) for _ in range(3)]
         return out
+    if shape == "mixed-types":
+        # a user directory hands over numbers, booleans and octets next to text (what is released is their text form)
+        out = dict(ident)
+        out["uid"] = ["ann", 1017, "a17"]
+        out["employeeNumber"] = [4711, "4711x"]
+        out["eduPersonAffiliation"] = ["staff", 7, True, "member", b"staff-octets", "alum"]
+        out["mail"] = ["ann@example.org", 42, "ann@evil.example.com"]
+        out["givenName"] = ["Ann", False]
+        return out
     return ident
 
 
 def gen_cases(tier, seed):
     rng = random.Random(seed)
     cases = []
-    shapes = ["full", "case-variants", "sparse", "hostile-values"]
+    shapes = ["full", "case-variants", "sparse", "hostile-values", "mixed-types"]
     for pol, decl, cat in itertools.product(sorted(POLICIES), sorted(DECLS), sorted(CATS)):
         ec = pol.startswith("ec-")
         if not ec and cat not in ("none", "unrelated"):
@@ -385,7 +394,9 @@ def judge(case, ident, xml, eid, prefix=""):
     success = status == "urn:oasis:names:tc:SAML:2.0:status:Success"
     lident = {}
     for k, v in ident.items():
-        lident.setdefault(k.lower(), set()).update(v)
+        # (text form as the IdP writes it: booleans in lower case, octets decoded)
+        lident.setdefault(k.lower(), set()).update(
+            x if isinstance(x, str) else (str(x).lower() if isinstance(x, bool) else (x.decode("utf-8") if isinstance(x, bytes) else str(x))) for x in v)
     decl = DECLS[case["decl"]]
     required_names = set(n.lower() for n, req, vals in (decl or []) if req)
     ent = entitled(case["policy"], case["cat"], required_names, eid)
